@@ -1026,7 +1026,7 @@ def binary_rules(rep, F, funcs, is_noreturn, SR):
                 src = strip(call_args(n)[1])
                 while src is not None and src["k"] in ("CStyleCastExpr", "CXXStaticCastExpr", "CXXReinterpretCastExpr"):
                     src = strip(kids(src)[0])
-                key = "%s|memcpy-source" % f.qn
+                key = "%s|memcpy-source" % re.sub(r"mp::internal::", "", f.full.split("(")[0])[:80]      # one instance per instantiation
                 if (key, n.get("l")) in seen:
                     continue
                 seen.add((key, n.get("l")))
